@@ -479,10 +479,9 @@ func c09(c *core.Ctx) {
 				if (f.Op != token.LEQ && f.Op != token.LSS) || !isParsed(f.X) {
 					return false
 				}
-				// Y: MaxInt64 / unit   or a constant C with C*3600e9 <= MaxInt64
-				if k, ok := core.ConstInt(f.Y); ok {
-					return k <= math.MaxInt64/int64(3600e9)
-				}
+				// Y: MaxInt64 / unit. One constant for all units cannot be right: to be safe for hours it must be
+				// <= MaxInt64/3600e9 = 2562047, and then it saturates values the wire format permits (up to 8 digits)
+				// in the finer units, giving the handler a far later deadline than the caller's
 				if b, ok := f.Y.(*ssa.BinOp); ok && b.Op == token.QUO {
 					if k, ok := core.ConstInt(b.X); ok && k == math.MaxInt64 {
 						return core.OriginIs(b.Y, func(o ssa.Value) bool { return o == unitVal }) || stripCT(b.Y) == unitVal
@@ -730,6 +729,9 @@ func evalTimeoutQuot(v ssa.Value) timeoutQuot {
 		if div != 0 {
 			if src, _, isC := core.CallResult(x.Call.Args[0]); isC {
 				if n := core.InfoOf(&src.Call).Full(); n == "time.Until" || n == "time.Time.Sub" {
+					if why := staleNow(src); why != "" {
+						return timeoutQuot{why: why}
+					}
 					return timeoutQuot{div: div}
 				}
 			}
@@ -747,6 +749,9 @@ func evalTimeoutQuot(v ssa.Value) timeoutQuot {
 		if core.TypeStr(x.X.Type()) == "time.Duration" {
 			if call, _, isCall := core.CallResult(x.X); isCall {
 				if n := core.InfoOf(&call.Call).Full(); n == "time.Until" || n == "time.Time.Sub" {
+					if why := staleNow(call); why != "" {
+						return timeoutQuot{why: why}
+					}
 					return timeoutQuot{div: k}
 				}
 			}
@@ -829,3 +834,20 @@ func globalConstMap(p *core.Prog, m ssa.Value) map[int64]int64 {
 	return out
 }
 
+
+// staleNow: for deadline.Sub(t), t must be time.Now() taken in the same
+// function (what time.Until does); an instant handed in from elsewhere does not
+// deduct the time spent since it was taken.
+func staleNow(call *ssa.Call) string {
+	if core.InfoOf(&call.Call).Full() != "time.Time.Sub" || len(call.Call.Args) < 2 {
+		return ""
+	}
+	for _, o := range core.Origins(call.Call.Args[1]) {
+		nc, _, ok := core.CallResult(o)
+		if ok && core.InfoOf(&nc.Call).Is("time.Now") && nc.Parent() == call.Parent() {
+			continue
+		}
+		return "the remaining time is measured against an instant that is not time.Now() taken in the encoder itself (" + core.ValName(o) + "): whatever runs between that instant and the header (credentials lookup, URL building) is not deducted, so the handler's deadline ends up later than the caller's"
+	}
+	return ""
+}
